@@ -113,6 +113,9 @@ func (l *Listener) Snapshot() ([]dagsync.SyncFinished, bool) {
 	return append([]dagsync.SyncFinished(nil), l.Events...), l.Closed
 }
 
+// IdleTTL is the idle-handler TTL of scripted subscribers (virtual time; only "tick" steps let it pass).
+const IdleTTL = time.Minute
+
 // Exec runs scripts against one subscriber.
 type Exec struct {
 	W         *World
@@ -138,13 +141,16 @@ type Exec struct {
 	HoldBursts                                 []string
 	handlerRemoved                             bool
 	BadAnnounces                               int
-	Marks                                      map[int][]Mark // per publisher: RemoveHandler points (a new epoch starts)
+	Marks                                      map[int][]Mark // per publisher: RemoveHandler points
+	opsSinceExact                              map[int]int    // per publisher: sync-starting calls issued since the last exact quiescence
+	Ticks                                      int            // times the virtual clock was moved past the idle-handler TTL
+	TicksDuringSync                            int            // ... while a sync was parked
 	freezeOnce                                 sync.Once
 	frozenFlag                                 atomic.Bool
 }
 
 func NewExec(w *World, sc Script, discovery bool, opts ...dagsync.Option) (*Exec, error) {
-	e := &Exec{W: w, FailHeads: map[string]bool{}, CloseAt: -1, Excluded: map[string]int{}, dirty: map[int]bool{}, Marks: map[int][]Mark{}}
+	e := &Exec{W: w, FailHeads: map[string]bool{}, CloseAt: -1, Excluded: map[string]int{}, dirty: map[int]bool{}, Marks: map[int][]Mark{}, opsSinceExact: map[int]int{}}
 	for i := 0; i < sc.K; i++ {
 		p := w.AddPublisher(i, discovery, "")
 		p.ExtendAds(1)
@@ -154,6 +160,8 @@ func NewExec(w *World, sc Script, discovery bool, opts ...dagsync.Option) (*Exec
 	if sc.MaxAsync != 0 {
 		opts = append(opts, dagsync.MaxAsyncConcurrency(sc.MaxAsync))
 	}
+	// requests parked at a gate must not time out when a tick moves the clock
+	opts = append(opts, dagsync.IdleHandlerTTL(IdleTTL), dagsync.HttpTimeout(24*time.Hour))
 	s, err := NewSub(w, true, opts...)
 	if err != nil {
 		return nil, err
@@ -196,6 +204,7 @@ func (e *Exec) Settle() (exact bool) {
 	// exact quiescence with every gate open: every announcement has been handled
 	for i := range e.Pubs {
 		e.dirty[i] = false
+		e.opsSinceExact[i] = 0
 	}
 	e.sample()
 	return true
@@ -283,6 +292,7 @@ func (e *Exec) Run(i int, st Step, knownStaleStop bool) {
 		}
 		e.Announced[st.P] = append(e.Announced[st.P], head)
 		e.dirty[st.P] = true
+		e.opsSinceExact[st.P]++
 		info := p.Info()
 		if st.Op == "badannounce" {
 			// sender information no sync can use: the sync fails before its first request, and the head may be
@@ -313,6 +323,7 @@ func (e *Exec) Run(i int, st Step, knownStaleStop bool) {
 			e.contender = true
 		}
 		e.explicitOut++
+		e.opsSinceExact[st.P]++
 		info := p.Info()
 		e.start("sync", st.P, i, func(o *Op) {
 			o.Cid, o.Err = e.S.S.SyncAdChain(ctx, info)
@@ -325,6 +336,7 @@ func (e *Exec) Run(i int, st Step, knownStaleStop bool) {
 		p := e.Pubs[st.P]
 		ent := p.BuildEntries(st.N, 1000+i)
 		e.explicitOut++
+		e.opsSinceExact[st.P]++
 		info := p.Info()
 		e.start("entries", st.P, i, func(o *Op) {
 			o.Ent = ent
@@ -347,6 +359,27 @@ func (e *Exec) Run(i int, st Step, knownStaleStop bool) {
 		if e.S.S.RemoveHandler(p.ID) {
 			e.Marks[st.P] = append(e.Marks[st.P], Mark{Hooks: e.S.NHooks(), Events: e.S.NEvents(), Announced: len(e.Announced[st.P]), Ops: len(e.Ops), Latest: latest})
 		}
+	case "tick":
+		// Let the virtual clock pass the idle-handler TTL. The bubble's clock only moves when every goroutine is
+		// durably blocked, and a goroutine waiting for a library mutex is not: so this is only done when at most
+		// one sync-starting call per publisher was issued since the last exact quiescence (no call can be queued
+		// behind another one's locks) and no Close is in progress.
+		if e.CloseAt >= 0 {
+			return
+		}
+		if e.anyHeld() || e.anyParked() {
+			// (a call of another publisher can be queued too: behind the concurrency semaphore's holder)
+			for pi := range e.Pubs {
+				if e.opsSinceExact[pi] > 1 {
+					return
+				}
+			}
+		}
+		e.Ticks++
+		if e.anyParked() {
+			e.TicksDuringSync++
+		}
+		time.Sleep(IdleTTL + time.Second)
 	case "hold":
 		e.Pubs[st.P].Hold()
 	case "open":
